@@ -2,11 +2,8 @@
 import json, os
 import checklib as L
 
-F4_KEY = "F4-legacy-v2-timestamp-delta-truncation"
-F9_KEY = "F9-proto-v1-wrapper-compacted-offsets"
-
 TRUSTED_BASE = [
-    "Coq 8.16.1 kernel (coqc; coqchk in the thorough tier); vm_compute only in non-vacuity Examples, the F4 refutation witness and two constant facts (2^64 < 128^10, size of varint(-1)); no native_compute",
+    "Coq 8.16.1 kernel (coqc; coqchk in the thorough tier); vm_compute only in non-vacuity Examples (incl. the former F4 witness as a regression instance) and two constant facts (2^64 < 128^10, size of varint(-1)); no native_compute",
     "hand-written model coq/Model/Records.v of write.go/recordbatch.go (legacy writers), protocol/record*.go (protocol writers and reader), message_reader.go+batch.go (Conn reader), tied by the byte-exact differential run of harness/cmd/c05 (real code, build tag verif, hooks /repo/verif_export_c05.go) against the OCaml extraction (ExtrOcamlBasic only)",
     "coq/Spec/RecordFormat.v: Kafka message formats 0/1/2 transcribed by hand from the Kafka documentation and KIP-31/32 (fidelity to Apache Kafka is trusted); the harness' independent Go codec (harness/cmd/c05/refcodec.go) mirrors it and is cross-checked against it on every case",
     "compression: a parameter (any comp/decomp with decomp c (comp c b) = b) in the theorems; in the differential the real codecs' behaviour is shipped with each case as (plain, compressed) pairs; gzip/snappy/lz4/zstd themselves are oracles",
@@ -82,12 +79,8 @@ def writer_predicate(c):
     exp = writer_expected(c["op"], a)
     if got == exp:
         return None
-    if len(got) == len(exp) and all(x[0] == y[0] and x[2:] == y[2:] for x, y in zip(got, exp)) \
-            and c["op"] in ("wl", "wc") and a[0] == "2":
-        devs = sorted({x[1] - y[1] for x, y in zip(got, exp) if x[1] != y[1]})
-        kind = "1 ms off (sub-millisecond parts)" if all(abs(d) == 1 for d in devs) else "clamped to +-(2^31-1) ms from the first record"
-        return (F4_KEY, "legacy Conn v2 writer: a record's decoded millisecond timestamp differs from timestamp(msg.Time): "
-                + kind + " — delta computed as milliseconds(msg.Time.Sub(baseTime))")
+    if len(got) == len(exp) and all(x[0] == y[0] and x[2:] == y[2:] for x, y in zip(got, exp)):
+        return (None, "a record's decoded millisecond timestamp differs from timestamp(record time)")
     return (None, "decoded records differ from the records given to the writer")
 
 
@@ -111,8 +104,8 @@ def reader_predicate(c):
     pr, pe, mr, me, er = parts
     if pr != er:
         if "v1holes" in feats:
-            return (F9_KEY, "Client.Fetch path (protocol readFromVersion1) rebases the inner messages of a compacted magic-1 "
-                    "wrapper with len-1 instead of the last inner offset: absolute offsets differ from the Conn path and from Kafka's rule")
+            return (None, "Client.Fetch path gives a compacted magic-1 wrapper's inner messages other absolute offsets than "
+                    "Kafka's rule (wrapper offset - last inner offset + inner offset) and the Conn path")
         if "crcbad" in feats:
             return (None, "Client.Fetch path surfaced records of (or after) a batch whose checksum does not match, or lost earlier ones")
         if "control" in feats:
